@@ -252,6 +252,30 @@ pub fn batch(preset: &str, seed: u64, ops: usize, lines: &mut Vec<String>, raw: 
 // dst-api
 // ------------------------------------------------------------------------------------------
 
+/// the generated API scenario of `dst-api sim`: (variant, nodes, crash probability of variant 0, ops as (code, a, b)).
+/// codes: 0 random_running_node, 1 maybe_crash_node a, 2 crash_node a (reason b), 3 start_recovery a, 4 advance_time a,
+/// 5 step, 6 record_operation (kind a, key b), 7 rng().gen_range(0, 1000), 8 context().local_time(a)
+pub fn dst_api_script(seed: u64, steps: usize) -> Option<(u8, usize, f64, Vec<(u8, u64, u64)>)> {
+    let mut r = Rng::new(seed ^ 0xD5A);
+    let nodes = 2 + r.below(6) as usize;
+    let (variant, p) = if r.chance(1, 2) { (0u8, *r.pick(&[0.0, 0.05, 0.3, 1.0])) } else { (1u8, 0.0) };
+    let n = nodes as u64;
+    let mut ops = Vec::new();
+    for _ in 0..steps {
+        let what = r.below(100);
+        ops.push(if what < 15 { (0, 0, 0) }
+            else if what < 30 { (1, r.below(n), 0) }
+            else if what < 38 { let i = r.below(n); (2, i, r.below(3)) }
+            else if what < 50 { (3, r.below(n), 0) }
+            else if what < 62 { (4, r.below(200), 0) }
+            else if what < 80 { (5, 0, 0) }
+            else if what < 90 { let k = r.below(2); (6, k, r.below(4)) }
+            else if what < 95 { (7, 0, 0) }
+            else { (8, r.below(n), 0) });
+    }
+    Some((variant, nodes, p, ops))
+}
+
 pub fn dst_api(preset: &str, seed: u64, steps: usize, lines: &mut Vec<String>, raw: &mut Vec<String>) -> bool {
     use redis_sim::simulator::crash::{OperationType as CrashOp, PendingOperation};
     use redis_sim::simulator::dst::{OperationResult, OperationType, RecordedOperation};
@@ -259,68 +283,68 @@ pub fn dst_api(preset: &str, seed: u64, steps: usize, lines: &mut Vec<String>, r
     match preset {
         // DSTSimulation's public API the way a "subclass" (RedisDSTSimulation) uses it
         "sim" => {
-            let nodes = 2 + r.below(6) as usize;
-            let mut sim = if r.chance(1, 2) {
+            let Some((variant, nodes, p, script)) = dst_api_script(seed, steps) else { return false };
+            let mut sim = if variant == 0 {
                 let mut fc = FaultConfig::new();
-                fc.set(faults::process::CRASH, *r.pick(&[0.0, 0.05, 0.3, 1.0]));
+                fc.set(faults::process::CRASH, p);
                 DSTSimulation::new(seed).with_nodes(nodes).with_faults(fc)
             } else {
                 DSTSimulation::with_config(DSTConfig::chaos(seed).with_nodes(nodes).with_crash_config(CrashConfig { min_recovery_time_ms: 5, max_recovery_time_ms: 50, ..CrashConfig::default() }))
             };
             let n = sim.config().node_count;
             raw.push(format!("shape nodes={} skew={}", n, sim.config().enable_clock_skew));
-            for k in 1..=steps {
-                let what = r.below(100);
-                let l = if what < 15 {
-                    format!("random_running_node {:?}", sim.random_running_node())
-                } else if what < 30 {
-                    let i = r.below(n as u64) as usize;
-                    format!("maybe_crash_node {} {}", i, sim.maybe_crash_node(i))
-                } else if what < 38 {
-                    let i = r.below(n as u64) as usize;
-                    sim.crash_node(i, r.pick(&[CrashReason::PowerFailure, CrashReason::OutOfMemory, CrashReason::NetworkIsolation]).clone());
-                    format!("crash_node {}", i)
-                } else if what < 50 {
-                    let i = r.below(n as u64) as usize;
-                    let had = sim.start_recovery(i).is_some();
-                    format!("start_recovery {} checkpoint={}", i, had)
-                } else if what < 62 {
-                    let ms = r.below(200);
-                    sim.advance_time(ms);
-                    format!("advance_time {}", ms)
-                } else if what < 80 {
-                    sim.step();
-                    "step".to_string()
-                } else if what < 90 {
-                    let id = sim.next_op_id();
-                    let node = sim.random_running_node();
-                    let t = sim.current_time();
-                    sim.record_operation(RecordedOperation { id, node_id: node.unwrap_or(0), op_type: if r.chance(1, 2) { OperationType::Write } else { OperationType::CompareAndSwap }, key: format!("k{}", r.below(4)),
-                        value: None, start_time: t, end_time: Some(t), result: if node.is_some() { OperationResult::Success(None) } else { OperationResult::Timeout } });
-                    format!("record_operation id={} node={:?}", id, node)
-                } else if what < 95 {
-                    let v = sim.rng().gen_range_pub(0, 1000);
-                    format!("rng {}", v)
-                } else {
-                    let i = r.below(n as u64) as usize;
-                    let local = sim.context().local_time(redis_sim::io::simulation::NodeId(i)).as_millis();
-                    format!("local_time {} {} ctx_now={}", i, local, sim.context().now().as_millis())
+            for (k, (code, a, b)) in script.iter().enumerate() {
+                let i = *a as usize;
+                let l = match code {
+                    0 => format!("random_running_node {:?}", sim.random_running_node()),
+                    1 => format!("maybe_crash_node {} {}", i, sim.maybe_crash_node(i)),
+                    2 => {
+                        sim.crash_node(i, [CrashReason::PowerFailure, CrashReason::OutOfMemory, CrashReason::NetworkIsolation][*b as usize].clone());
+                        format!("crash_node {}", i)
+                    }
+                    3 => {
+                        let had = sim.start_recovery(i).is_some();
+                        format!("start_recovery {} checkpoint={}", i, had)
+                    }
+                    4 => {
+                        sim.advance_time(*a);
+                        format!("advance_time {}", a)
+                    }
+                    5 => {
+                        sim.step();
+                        "step".to_string()
+                    }
+                    6 => {
+                        let id = sim.next_op_id();
+                        let node = sim.random_running_node();
+                        let t = sim.current_time();
+                        sim.record_operation(RecordedOperation { id, node_id: node.unwrap_or(0), op_type: if *a == 0 { OperationType::Write } else { OperationType::CompareAndSwap }, key: format!("k{}", b),
+                            value: None, start_time: t, end_time: Some(t), result: if node.is_some() { OperationResult::Success(None) } else { OperationResult::Timeout } });
+                        format!("record_operation id={} node={:?}", id, node)
+                    }
+                    7 => format!("rng {}", sim.rng().gen_range_pub(0, 1000)),
+                    _ => {
+                        let local = sim.context().local_time(redis_sim::io::simulation::NodeId(i)).as_millis();
+                        format!("local_time {} {} ctx_now={}", i, local, sim.context().now().as_millis())
+                    }
                 };
                 let st: Vec<String> = (0..n).map(|i| if sim.is_node_running(i) { "R".to_string() } else if sim.crash_simulator().is_crashed(HostId(i)) { "C".to_string() } else if sim.crash_simulator().is_recovering(HostId(i)) { "V".to_string() } else { "?".to_string() }).collect();
-                lines.push(format!("{} {} now={} {} recovering={:?}", k, l, sim.current_time().as_millis(), st.join(""), sim.crash_simulator().recovering_nodes().iter().map(|h| h.0).collect::<Vec<_>>()));
+                lines.push(format!("{} {} now={} {} recovering={:?}", k + 1, l, sim.current_time().as_millis(), st.join(""), sim.crash_simulator().recovering_nodes().iter().map(|h| h.0).collect::<Vec<_>>()));
             }
             let res = sim.finalize().clone();
             lines.push(format!("result {} by_type={} history={:?}", res.summary(), sorted_map(&res.operations_by_type), res.operation_history.iter().map(|o| (o.id, o.node_id)).collect::<Vec<_>>()));
             let cs = sim.crash_simulator().stats();
-            lines.push(format!("crash-stats crashes={} recoveries={} by_reason={} loss={} avg={}", cs.total_crashes, cs.total_recoveries, sorted_map(&cs.crashes_by_reason), cs.total_state_loss_events, cs.average_recovery_time_ms.to_bits()));
-            raw.push(format!("buggify checks={} triggers={}", sorted_map(&res.buggify_stats.checks), sorted_map(&res.buggify_stats.triggers)));
+            lines.push(format!("crash-stats crashes={} recoveries={} by_reason={} loss={}", cs.total_crashes, cs.total_recoveries, sorted_map(&cs.crashes_by_reason), cs.total_state_loss_events));
+            raw.push(format!("avg-recovery {}", cs.average_recovery_time_ms.to_bits()));
             // BuggifyStats' own API: summary (sorted by fault id), trigger_rate, merge (per-key sums)
             let mut merged = buggify::BuggifyStats::new();
             merged.merge(&res.buggify_stats);
             merged.merge(&res.buggify_stats);
             merged.record_check(faults::process::CRASH);
-            lines.push(format!("buggify-summary crash_checks={} | {} | rate={} | merged checks={} triggers={}", res.buggify_stats.checks.get(faults::process::CRASH).copied().unwrap_or(0),
-                res.buggify_stats.summary().replace('\n', " / "), res.buggify_stats.trigger_rate(faults::process::CRASH).to_bits(), sorted_map(&merged.checks), sorted_map(&merged.triggers)));
+            // LAST line: the thread's BUGGIFY counters as copied into the result (cumulative over earlier runs: known finding)
+            lines.push(format!("buggify-summary crash_checks={} triggers={} | merged checks={} triggers={}", res.buggify_stats.checks.get(faults::process::CRASH).copied().unwrap_or(0),
+                res.buggify_stats.triggers.get(faults::process::CRASH).copied().unwrap_or(0), sorted_map(&merged.checks), sorted_map(&merged.triggers)));
+            raw.push(format!("buggify-text {} | rate={}", res.buggify_stats.summary().replace('\n', " / "), res.buggify_stats.trigger_rate(faults::process::CRASH).to_bits()));
         }
         // CrashSimulator on its own: checkpoints, state loss, explicit recovery completion
         "crash" => {
